@@ -132,7 +132,7 @@ def mk(L, maxobj):
                 lk.release()
                 held[c] = False
             elif op == "drop":
-                _, c = objs[tgt]
+                c = objs[tgt][1]        # (no name may keep the lock object alive: `_, c = objs[tgt]` did, which made a later drop_one ineffective)
                 if held[c]:
                     trace.append("skip")
                     continue
